@@ -8,9 +8,15 @@
 //            default  o: n | s<hex>     m: n | l<wire list>     t: 0|1
 //            flag     o,m: optional()   t: allow_reverse()
 //            rank     position of the toggle object among the LONG toggles in address order, "-" otherwise
+//   pos    : 0 | 1 (accept_positionals()) | a<k> (accept_positionals(k)), optionally followed by ":<hist>".  hist is a
+//            string over e|g|f: parse() calls made on the SAME parser object before the first usage() and again between
+//            the usage() calls: e = empty argument vector, g = a vector giving every option/toggle declared so far and
+//            positionals, f = a vector that fails (exception caught).  The usage text must not depend on them.
+//   an opt whose kind letter is upper case (O|M|T) is declared LATE: after a first usage() call has already been made
 //   observation  "T <hex text>"  when a fresh stringstream, a stringstream holding `prior`, an ostream over a
 //   non-seekable streambuf (tellp() == -1) and std::cout (rdbuf swapped, non-seekable) all received the same text,
-//   otherwise "STREAMS-DIFFER <fresh> <prior> <nonseekable> <cout>".
+//   otherwise "STREAMS-DIFFER <fresh> <prior> <nonseekable> <cout>"; "USAGE-CHANGED <first> <second>" when two usage()
+//   calls on fresh string streams (with the parse() calls of hist in between) differ.
 //
 // case "F indent lp mw text": format_padded(s, text, lp, mw) on a stream holding `indent` characters
 //   (indent = -1: non-seekable stream);  observation "F <hex of what was appended>".
@@ -126,7 +132,28 @@ static std::string run_usage(const std::vector<std::string>& w)
     try
     {
         no::parser p(unhex(w[1]), unhex(w[2]), unhex(w[3]));
-        if (w[4] == "1") p.accept_positionals();
+        std::string posfield = w[4], hist;
+        {
+            auto colon = posfield.find(':');
+            if (colon != std::string::npos)
+            {
+                hist = posfield.substr(colon + 1);
+                posfield = posfield.substr(0, colon);
+            }
+        }
+        std::size_t pos_amount = 0;
+        if (posfield == "1")
+        {
+            p.accept_positionals();
+            pos_amount = 2;
+        }
+        else if (posfield.size() > 1 && posfield[0] == 'a')
+        {
+            pos_amount = std::stoul(posfield.substr(1));
+            p.accept_positionals(pos_amount);
+        }
+        else if (posfield != "0")
+            return "BADCASE";
         p.positional_metavar(unhex(w[5]));
         std::vector<no::group*> groups;
         groups.push_back(&p.group());
@@ -137,57 +164,100 @@ static std::string run_usage(const std::vector<std::string>& w)
                 if (f.size() != 2) return "BADCASE";
                 groups.push_back(&p.group(unhex(f[0]), unhex(f[1])));
             }
-        std::vector<std::pair<int, no::toggle*>> longs; // (requested rank, object)
-        for (std::size_t i = 8; i < w.size(); i++)
-        {
-            auto f = split_on(w[i], ':');
-            if (f.size() != 10 || f[0].size() != 1) return "BADCASE";
-            std::size_t gi = std::stoul(f[1]);
-            if (gi >= groups.size()) return "BADCASE";
-            no::group& g = *groups[gi];
-            const std::string name = unhex(f[2]), descr = unhex(f[4]), env = unhex(f[5]), metavar = unhex(f[6]);
-            const bool flag = f[8] == "1";
-            switch (f[0][0])
+        std::vector<std::pair<int, no::toggle*>> longs;          // (requested rank, object)
+        std::vector<std::pair<char, std::string>> declared;      // (kind, name) of what is declared so far
+        bool bad = false, any_late = false;
+        auto declare = [&](bool late) {
+            for (std::size_t i = 8; i < w.size(); i++)
             {
-            case 'o':
-            {
-                auto& o = g.option(name, descr);
-                if (f[3] != "-") o.short_name(unhex(f[3]));
-                if (!env.empty()) o.env(env);
-                o.metavar(metavar);
-                if (f[7][0] == 's') o.default_value(unhex(f[7].substr(1)));
-                if (flag) o.optional();
-                break;
-            }
-            case 'm':
-            {
-                auto& o = g.multi_option(name, descr);
-                if (f[3] != "-") o.short_name(unhex(f[3]));
-                if (!env.empty()) o.env(env);
-                o.metavar(metavar);
-                if (f[7][0] == 'l') o.default_value(unwire_strs(f[7].substr(1)));
-                if (flag) o.optional();
-                break;
-            }
-            case 't':
-            {
-                int rank = f[9] == "-" ? -1 : std::stoi(f[9]);
-                no::toggle* t;
+                auto f = split_on(w[i], ':');
+                if (f.size() != 10 || f[0].size() != 1) { bad = true; return; }
+                const bool is_late = f[0][0] >= 'A' && f[0][0] <= 'Z';
+                if (is_late) any_late = true;
+                if (is_late != late) continue;
+                const char kind = static_cast<char>(is_late ? f[0][0] - 'A' + 'a' : f[0][0]);
+                std::size_t gi = std::stoul(f[1]);
+                if (gi >= groups.size()) { bad = true; return; }
+                no::group& g = *groups[gi];
+                const std::string name = unhex(f[2]), descr = unhex(f[4]), env = unhex(f[5]), metavar = unhex(f[6]);
+                const bool flag = f[8] == "1";
+                switch (kind)
                 {
-                    arena::use_slot slot(rank);
-                    t = &g.toggle(name, descr);
+                case 'o':
+                {
+                    auto& o = g.option(name, descr);
+                    if (f[3] != "-") o.short_name(unhex(f[3]));
+                    if (!env.empty()) o.env(env);
+                    o.metavar(metavar);
+                    if (f[7][0] == 's') o.default_value(unhex(f[7].substr(1)));
+                    if (flag) o.optional();
+                    break;
                 }
-                if (f[3] != "-") t->short_name(unhex(f[3]));
-                if (!env.empty()) t->env(env);
-                t->metavar(metavar);
-                t->default_value(f[7] == "1");
-                if (flag) t->allow_reverse();
-                if (rank >= 0) longs.emplace_back(rank, t);
-                break;
+                case 'm':
+                {
+                    auto& o = g.multi_option(name, descr);
+                    if (f[3] != "-") o.short_name(unhex(f[3]));
+                    if (!env.empty()) o.env(env);
+                    o.metavar(metavar);
+                    if (f[7][0] == 'l') o.default_value(unwire_strs(f[7].substr(1)));
+                    if (flag) o.optional();
+                    break;
+                }
+                case 't':
+                {
+                    int rank = f[9] == "-" ? -1 : std::stoi(f[9]);
+                    no::toggle* t;
+                    {
+                        arena::use_slot slot(rank);
+                        t = &g.toggle(name, descr);
+                    }
+                    if (f[3] != "-") t->short_name(unhex(f[3]));
+                    if (!env.empty()) t->env(env);
+                    t->metavar(metavar);
+                    t->default_value(f[7] == "1");
+                    if (flag) t->allow_reverse();
+                    if (rank >= 0) longs.emplace_back(rank, t);
+                    break;
+                }
+                default:
+                    bad = true;
+                    return;
+                }
+                declared.emplace_back(kind, name);
             }
-            default:
-                return "BADCASE";
+        };
+        // the parse() calls of hist, on this parser object; whatever they do or raise, usage() must not notice
+        auto do_parses = [&]() {
+            for (char h : hist)
+            {
+                std::vector<std::string> args{ "prog" };
+                if (h == 'g')
+                {
+                    for (auto& kn : declared)
+                    {
+                        args.push_back("--" + kn.second);
+                        if (kn.first != 't') args.push_back("value");
+                    }
+                    for (std::size_t k = 0; k < pos_amount && k < 2; k++) args.push_back("positional");
+                }
+                else if (h == 'f')
+                    args.push_back("--no-such-option-was-declared-xyz");
+                std::vector<const char*> argv;
+                for (auto& a : args) argv.push_back(a.c_str());
+                try { auto parsed = p.parse(static_cast<int>(argv.size()), argv.data()); (void)parsed; }
+                catch (const std::exception&) {}
             }
+        };
+        declare(false);
+        if (bad) return "BADCASE";
+        do_parses();
+        if (any_late)
+        {
+            // a usage() call made before the declaration is complete must not be remembered
+            std::stringstream early;
+            p.usage(early);
+            declare(true);
+            if (bad) return "BADCASE";
         }
         // the address order of the long toggles must be the requested one
         std::sort(longs.begin(), longs.end(),
@@ -200,6 +270,13 @@ static std::string run_usage(const std::vector<std::string>& w)
             p.usage(fresh);
             a = fresh.str();
         }
+        do_parses();
+        {
+            std::stringstream again;
+            p.usage(again);
+            if (again.str() != a) return "USAGE-CHANGED " + hex(a) + " " + hex(again.str());
+        }
+        do_parses();
         {
             std::stringstream s;
             s << prior;
@@ -208,6 +285,7 @@ static std::string run_usage(const std::vector<std::string>& w)
             if (b.compare(0, prior.size(), prior) != 0) return "PRIOR-CONTENT-DAMAGED";
             b = b.substr(prior.size());
         }
+        do_parses();
         {
             sink_buf sb;
             std::ostream os(&sb);
